@@ -80,6 +80,10 @@ Section Transfer.
   Qed.
   Lemma vsq_phi : forall n v, vphi (vsq Ops n v) = vsq Rops n (vphi v).
   Proof. intros. unfold vsq, sq. apply vtab_phi. intros. rewrite phi_mul, !vget_phi. reflexivity. Qed.
+  Lemma msym_phi : forall n A, mphi (msym Ops n A) = msym Rops n (mphi A).
+  Proof.
+    intros. unfold msym. apply mtab_phi. intros. rewrite phi_mul, phi_add, !mget_phi, phi_of_Q. reflexivity.
+  Qed.
   Lemma motion_phi : forall n, mphi (motion_matrix Ops n) = motion_matrix Rops n.
   Proof.
     intros. unfold motion_matrix. apply mtab_phi. intros i j _ _.
@@ -174,7 +178,7 @@ Section Transfer.
     f_equal.
     - rewrite vadd_phi. f_equal. apply vtab_phi. intros j _. rewrite sum_phi. apply Rsum_ext. intros i _.
       rewrite phi_mul, <- vget_phi, vsub_phi, <- mget_phi, Hg. reflexivity.
-    - rewrite msub_phi, !mmul_phi, mtrans_phi, Hg. reflexivity.
+    - rewrite msym_phi, msub_phi, !mmul_phi, mtrans_phi, Hg. reflexivity.
   Qed.
 
   Definition op_phi (op : kop Ops) : kop Rops :=
